@@ -83,7 +83,7 @@ impl LayerContents {
             })
             .collect::<Result<_, _>>()?;
         // we always need a default layer, so add an empty one if it's filtered
-        if !filter.includes_default_layer() {
+        if !filter.includes_default_layer() && !layers.iter().any(Layer::is_default) {
             layers.push(Layer::default());
         }
 
